@@ -66,6 +66,7 @@ type Frame struct {
 	deferArgs    map[*ssa.Defer][]Term
 	deferFn      map[*ssa.Defer]Term
 	callOrd      map[string]int
+	srcOrd       map[ssa.Instruction]string // call instruction -> "Name@k" (source order), built lazily
 	curBlock     *ssa.BasicBlock
 	curLoopStack []*loopInfo
 	ghosts       map[string]Binding // function-level ghost variables (current values)
@@ -916,6 +917,9 @@ func (fr *Frame) backEdge(li *loopInfo, u *ssa.BasicBlock, reach string, st *Sta
 	for _, gv := range li.spec.Ghosts {
 		// update is evaluated with the header (current iteration) values of program variables and ghosts
 		env := fr.loopEnv(li, st, func(phi *ssa.Phi) Term { return fr.vals[phi] }, li.ghostCur)
+		if gv.AtEnd {
+			env = fr.loopEnv(li, st, phiVal, li.ghostCur)
+		}
 		t, _ := env.tr(gv.Update)
 		ghostNext[gv.Name] = Binding{g.sc.Define("ghostn_"+gv.Name, Term{t.S, li.ghostCur[gv.Name].T.Sort}), li.ghostCur[gv.Name].Ty}
 	}
